@@ -102,3 +102,22 @@ def default_classify(op, impl):
     tag = w[0] + (":" + w[1] if w[0] == "parse" else "")
     out = impl.split(" ", 1)[0]
     return f"{tag}:{out}"
+
+
+def textish(rng, n):
+    """bytes for a textual option (host name, SSID, service name …): random bytes hardly ever END in a zero octet or consist
+    of zeros only, which is exactly where a getter that treats the data as a C string differs (seeded/C04c)"""
+    b = bytearray(rng.randrange(256) for _ in range(n))
+    k = rng.random()
+    if n and k < 0.25:
+        for i in range(1, min(n, rng.choice([1, 1, 2, 3])) + 1):
+            b[-i] = 0                                       # trailing zero octets
+    elif n and k < 0.33:
+        b = bytearray(n)                                    # all zeros (hidden SSID)
+    elif n and k < 0.40:
+        b[0] = 0                                            # leading zero
+    elif n > 2 and k < 0.47:
+        b[rng.randrange(1, n - 1)] = 0                      # embedded zero
+    elif k < 0.60:
+        b = bytearray(rng.choice(b"abcdefghijklmnopqrstuvwxyz0123456789-._") for _ in range(n))
+    return bytes(b)
